@@ -209,6 +209,8 @@ def ROUND(number, digits):
     digits = utils.parse_number(digits)
     if utils.any_is_error((number, digits)):
         return error.VALUE
+    if digits < -308:
+        return number * 0  # no XL number has a digit that far to the left (round() would compute 10**-digits exactly)
     return round(number, digits)
 
 
@@ -219,6 +221,10 @@ def ROUNDUP(number, digits):
     if utils.any_is_error((number, digits)):
         return error.VALUE
     sign = 1 if number > 0 else -1
+    if digits > 308:
+        return number + 0  # no XL number has a digit that far to the right: nothing to round
+    if digits < -308:
+        return error.NUM if number else number * 0  # one unit of that place is beyond the range of XL numbers
     if digits < 0:
         # 10**digits is an inexact float (1e-5 is 1.0000000000000001e-05): scale by the exact integer instead
         return sign * math.ceil(abs(number) / 10**-digits) * 10**-digits
@@ -232,6 +238,10 @@ def ROUNDDOWN(number, digits):
     if utils.any_is_error((number, digits)):
         return error.VALUE
     sign = 1 if number > 0 else -1
+    if digits > 308:
+        return number + 0  # no XL number has a digit that far to the right: nothing to round
+    if digits < -308:
+        return number * 0  # no XL number has a digit that far to the left
     if digits < 0:
         # 10**digits is an inexact float: scale by the exact integer instead
         return sign * math.floor(abs(number) / 10**-digits) * 10**-digits
